@@ -257,6 +257,8 @@ class A21:
             return st
 
         # fixpoint
+        from .flow import threaded_successors
+        tsucc = threaded_successors(b)
         ins = {0: {}}
         work = [0]
         seen_out = {}
@@ -268,9 +270,7 @@ class A21:
             if seen_out.get(bi) == out:
                 continue
             seen_out[bi] = out
-            for d in cfg.succ[bi]:
-                if b.blocks[d]["cleanup"]:
-                    continue
+            for d in tsucc.get(bi, ()):
                 cur = ins.get(d)
                 if cur is None:
                     ins[d] = dict(out)
